@@ -60,7 +60,27 @@ class Untokenizable:
         raise TokenizationError("Untokenizable source (harness)")
 
 
+def _tag(block, label, enc=b""):
+    """block function taking a literal str argument and a literal bytes keyword"""
+    return block + len(label) + len(enc)
+
+
 def apply_step(step, env, m, da_mode):
+    op = step["op"]
+    # literal str / bytes arguments carried by blockwise / map_blocks nodes (their tokens must not depend on the process)
+    if op == "mb_sort":
+        a = env[step["args"][0]]
+        return m.map_blocks(np.sort, a, kind=step["kind"], dtype=a.dtype) if da_mode else np.sort(a, kind=step["kind"])
+    if op == "bw_einsum":
+        a = env[step["args"][0]]
+        sub = "ijkl"[: a.ndim]
+        return m.blockwise(np.einsum, sub, f"{sub}->{sub}", None, a, sub, dtype=a.dtype) if da_mode else np.einsum(f"{sub}->{sub}", a)
+    if op == "mb_tag":
+        a = env[step["args"][0]]
+        return a.map_blocks(_tag, step["label"], enc=step["enc"].encode(), dtype=a.dtype) if da_mode else _tag(a, step["label"], step["enc"].encode())
+    if op == "src" and da_mode and step.get("chunks_spec"):
+        # "auto" / byte-string chunks: resolved against dask's configuration
+        return m.from_array(programs.source_data(step), chunks=step["chunks_spec"])
     if step["op"] == "src" and da_mode and step.get("exception"):
         data = programs.source_data(step)
         chunks = tuple(tuple(c) for c in step["chunks"])
@@ -99,6 +119,52 @@ PROBE_FUSED_ORDER = [
     {"op": "clip", "args": ["v1"], "lo": 1, "hi": 2, "out": "v3"},
     {"op": "sub", "args": ["v2", "v3"], "out": "v4"},
 ]
+
+
+def _src(shape, chunks, **kw):
+    return {"op": "src", "shape": list(shape), "chunks": chunks, "mul": 1, "off": 0, "mod": 1 << 40, "out": "v1", **kw}
+
+
+# literal string kwarg / positional arguments of map_blocks / blockwise (a seeded regression tokenized them with hash())
+PROBE_STR_KWARG = [_src([3, 4], [[2, 1], [2, 2]]), {"op": "mb_sort", "args": ["v1"], "kind": "stable", "out": "v2"}]
+PROBE_STR_ARG = [_src([3, 4], [[2, 1], [2, 2]]), {"op": "bw_einsum", "args": ["v1"], "out": "v2"}]
+PROBE_BYTES = [_src([5], [[2, 3]]), {"op": "mb_tag", "args": ["v1"], "label": "abc", "enc": "xy", "out": "v2"}]
+FIXED_PROBES = [PROBE_FUSED_ORDER, PROBE_STR_KWARG, PROBE_STR_ARG, PROBE_BYTES]
+
+
+def config_programs(rng, n):
+    """(program, sender configuration): collections whose layout / graph depends on configuration that dask reads LAZILY;
+    they are pickled under the sender's configuration and unpickled in a fresh process running the defaults."""
+    out = []
+    tails = [
+        [],  # the bare source, nothing has looked at its chunks when it is pickled
+        [{"op": "affine", "args": ["v1"], "out": "v2"}],
+        [{"op": "reduce", "fn": "sum", "args": ["v1"], "axis": 0, "keepdims": False, "split_every": None, "out": "v2"}],
+        [{"op": "getitem", "args": ["v1"], "index": [["s", 3, 40, None]], "out": "v2"}],
+        [{"op": "transpose", "args": ["v1"], "axes": [1, 0], "out": "v2"}, {"op": "neg", "args": ["v2"], "out": "v3"}],
+    ]
+    k = 0
+    while len(out) < n:
+        kind = ["auto", "auto", "bytes", "unify", "optimize"][k % 5]
+        k += 1
+        if kind in ("auto", "bytes"):
+            side = rng.choice([40, 48, 56])
+            src = {"op": "src", "shape": [side, side], "chunks_spec": "auto" if kind == "auto" else rng.choice(["2KiB", "3KiB"]),
+                   "mul": 1, "off": rng.randint(0, 3), "mod": 1 << 40, "out": "v1"}
+            tail = copy.deepcopy(tails[(k // 5) % len(tails)] if kind == "auto" else rng.choice(tails))
+            out.append(([src] + tail, {"array.chunk-size": rng.choice(["4KiB", "6KiB"])}))
+        elif kind == "unify":
+            nrow = rng.choice([12, 24])
+            prog = [
+                {"op": "src", "shape": [nrow], "chunks": [[nrow // 2] * 2], "mul": 1, "off": 0, "mod": 1 << 40, "out": "v1"},
+                {"op": "src", "shape": [nrow], "chunks": [[nrow // 4] * 4], "mul": 3, "off": 1, "mod": 1 << 40, "out": "v2"},
+                {"op": rng.choice(["add", "mul", "maximum"]), "args": ["v1", "v2"], "out": "v3"},
+            ]
+            out.append((prog, {"array.unify-chunks-policy": rng.choice(["coarse", "refine"])}))
+        else:
+            prog, _g = programs.gen_program(rng, depth=rng.randint(2, 4), avoid=("swv-consumer",), zero_axes=0)
+            out.append((prog, {"array.optimize-graph": False}))
+    return out
 
 
 # ------------------------------------------------------------------ observables
@@ -165,14 +231,21 @@ out = {{}}
 for it in req["items"]:
     r = {{}}
     try:
-        env = C07.run_da(it["prog"])
-        root = env[it["root"]]
-        r["names"] = {{v: x.name for v, x in env.items()}}
-        r["built"] = C07.jsonable(C07.observe(root))
-        import cloudpickle
-        r["child_pickle"] = base64.b64encode(cloudpickle.dumps(root)).decode()
+        if not it.get("cfg"):
+            env = C07.run_da(it["prog"])
+            root = env[it["root"]]
+            r["names"] = {{v: x.name for v, x in env.items()}}
+            r["built"] = C07.jsonable(C07.observe(root))
+            import cloudpickle
+            r["child_pickle"] = base64.b64encode(cloudpickle.dumps(root)).decode()
+            del env, root
         for key in ("pickle_before", "pickle_after"):
             if it.get(key):
+                if it.get("cfg"):
+                    # sender ran another configuration: names do not encode configuration, so nothing with these names
+                    # may be alive here when the pickle is loaded (else the singleton registry answers instead of the pickle)
+                    u = None
+                    C07.clear_registries()
                 u = pickle.loads(base64.b64decode(it[key]))
                 r[key] = C07.jsonable(C07.observe(u))
     except Exception as e:
@@ -180,6 +253,14 @@ for it in req["items"]:
     out[str(it["id"])] = r
 print("\n@@RESULT@@" + json.dumps(out))
 """
+
+
+def clear_registries():
+    import gc
+
+    gc.collect()
+    for d in N.Registry._caches():
+        d.clear()
 
 
 def run_child(items, hashseed):
@@ -215,12 +296,22 @@ def run(ctx, replay=None):
     ctx.extra["trusted_base"] = [
         "C07: pickle/cloudpickle and dask.tokenize are trusted; fresh-process determinism is sampled (other PYTHONHASHSEEDs), not proved",
     ]
+    cfg_of = {}
     if replay is not None:
         case = replay.get("case", replay)
         progs = [case["program"]] if "program" in case else []
+        if progs and case.get("config"):
+            cfg_of[0] = case["config"]
     else:
-        progs = [copy.deepcopy(PROBE_FUSED_ORDER)]
-        NP = ctx.scale(40, 400)
+        progs = [copy.deepcopy(p) for p in FIXED_PROBES]
+        for prog, cfg in config_programs(rng, ctx.scale(6, 40)):
+            try:
+                run_np(prog)
+            except Exception:
+                continue
+            cfg_of[len(progs)] = cfg
+            progs.append(prog)
+        NP = ctx.scale(40, 400) + len(progs)
         GEN = dict(avoid=("swv-consumer",), zero_axes=0)
         while len(progs) < NP:
             prog, _g = programs.gen_program(rng, depth=rng.randint(1, 6), **GEN)
@@ -230,6 +321,14 @@ def run(ctx, replay=None):
             if r < 1 / 6:
                 srcs = [st for st in prog if st["op"] == "src"]
                 rng.choice(srcs)["exception"] = rng.choice(["name=False", "untokenizable"])
+            if rng.random() < 0.12:
+                # a blockwise / map_blocks node carrying a literal str / bytes argument on top
+                last = prog[-1]["out"]
+                prog.append(rng.choice([
+                    {"op": "mb_sort", "args": [last], "kind": rng.choice(["stable", "quicksort"]), "out": "s1"},
+                    {"op": "bw_einsum", "args": [last], "out": "s1"},
+                    {"op": "mb_tag", "args": [last], "label": rng.choice(["a", "label", "ij->ij"]), "enc": rng.choice(["", "utf8"]), "out": "s1"},
+                ]))
             try:
                 with np.errstate(all="ignore"):
                     run_np(prog)
@@ -243,11 +342,14 @@ def run(ctx, replay=None):
     stats = collections.Counter()
     with dask.config.set(scheduler="sync"):
         for pid, prog in enumerate(progs):
-            rec = in_process(ctx, reg, pid, prog, stats)
+            cfg = cfg_of.get(pid, {})
+            with dask.config.set(cfg):
+                rec = in_process(ctx, reg, pid, prog, stats, cfg)
             if rec is None:
                 continue
             kept.append(rec)
-            items.append({"id": pid, "prog": prog, "root": rec["root"], "pickle_before": rec["pickle_before"], "pickle_after": rec["pickle_after"]})
+            # the fresh process always runs dask's DEFAULT configuration: for `cfg` programs sender and receiver differ
+            items.append({"id": pid, "prog": prog, "root": rec["root"], "pickle_before": rec["pickle_before"], "pickle_after": rec["pickle_after"], "cfg": bool(cfg)})
         # ---- fresh processes (parallel), every program under two other hash seeds
         seeds = [1, 4242]
         nchunk = ctx.scale(3, 6)
@@ -266,12 +368,15 @@ def run(ctx, replay=None):
     ctx.notes["c07"] = dict(stats)
     ctx.notes["programs"] = len(progs)
     ctx.notes["programs_with_documented_exception_source"] = sum(has_exception(p) for p in progs)
+    ctx.notes["programs_pickled_under_another_configuration"] = len(cfg_of)
     if kept:
         ctx.sample({"kind": "program", "program": kept[len(kept) // 2]["prog"]})
 
 
 def fail(ctx, sig, rec, what, **kw):
     case = {"program": rec["prog"], "root": rec["root"]}
+    if rec.get("config"):
+        case["config"] = rec["config"]
     case.update(kw)
     ctx.fail(sig, case, what)
 
@@ -303,7 +408,7 @@ FIELDS = ("name", "dask_keys", "chunks", "dtype", "frisky", "values")
 FIELDS_G = FIELDS + ("graph_keys",)
 
 
-def in_process(ctx, reg, pid, prog, stats):
+def in_process(ctx, reg, pid, prog, stats, cfg=None):
     import cloudpickle
 
     exc = has_exception(prog)
@@ -314,11 +419,17 @@ def in_process(ctx, reg, pid, prog, stats):
         stats["build-exc"] += 1
         return None
     root = prog[-1]["out"]
-    rec = {"id": pid, "prog": prog, "root": root, "exception": exc, "op": prog[-1]["op"]}
+    rec = {"id": pid, "prog": prog, "root": root, "exception": exc, "op": prog[-1]["op"], "config": dict(cfg or {})}
     A, B = envA[root], envB[root]
     kind = next((st["exception"] for st in prog if st.get("exception")), "none")
     ctx.count(("in-process", prog[-1]["op"], kind))
-    # 1. pickle BEFORE anything is cached
+    # 1. pickle BEFORE anything is cached (remember which nodes had not resolved their chunks yet)
+    try:
+        rec["chunks_unresolved_at_pickle"] = sorted({type(n).__name__ for n in A.expr.walk() if "chunks" not in n.__dict__})
+        rec["root_chunks_unresolved_at_pickle"] = "chunks" not in A.expr.__dict__
+    except Exception:
+        rec["chunks_unresolved_at_pickle"] = []
+        rec["root_chunks_unresolved_at_pickle"] = False
     try:
         rec["pickle_before"] = base64.b64encode(cloudpickle.dumps(A)).decode()
         p_before = {"cloudpickle": cloudpickle.dumps(A)}
@@ -410,8 +521,12 @@ def cross_process(ctx, rec, r, seed, stats):
     ctx.count(("cross-process", rec["op"], exc, seed))
     if oA is None:
         return
+    cfg = rec.get("config") or {}
+    # sender and receiver run DIFFERENT configurations: rebuilding there is another input, and the optimized graph may
+    # legitimately differ; what a pickle must keep is name, keys, chunks, dtype, Frisky keys, values
+    fields = FIELDS if cfg else FIELDS_G
     # (i) rebuilt in the fresh process
-    if not exc:
+    if not exc and not cfg:
         ctx.traces += 1
         d = diff(oA, r["built"], FIELDS_G)
         if d:
@@ -423,10 +538,22 @@ def cross_process(ctx, rec, r, seed, stats):
                  hashseed=seed, differences=jsonable(d))
             return
     # (ii) parent's pickles loaded in the fresh process
+    cfg_failed = False
     for key in ("pickle_before", "pickle_after"):
         if key in r:
             ctx.traces += 1
-            d = diff(oA, r[key], FIELDS_G)
+            d = diff(oA, r[key], fields)
+            if d and cfg:
+                # family found on the unchanged tree: the ROOT's chunks had never been looked at when it was pickled
+                # (`from_array(x, chunks="auto")` alone; one elementwise op over differently chunked operands) and are
+                # resolved lazily against the configuration of whoever asks first -- here the receiver; values agree
+                lazy = key == "pickle_before" and rec.get("root_chunks_unresolved_at_pickle") and set(d) <= {"chunks", "dask_keys", "frisky"}
+                sig = "pickle:other-config:lazy-chunks-unresolved" if lazy else "pickle:other-config:" + ",".join(sorted(d))
+                fail(ctx, sig, rec, f"pickled under {cfg}, unpickled in a fresh process with the default configuration: the collection differs from the original",
+                     which=key, hashseed=seed, differences=jsonable(d), receiver_config="defaults",
+                     chunks_unresolved_at_pickle=rec.get("chunks_unresolved_at_pickle") if key == "pickle_before" else [])
+                cfg_failed = True
+                continue
             if d and set(d) == {"graph_keys"} and classify_graph_keys(oA, r[key]):
                 # the known optimizer family (another hash seed orders fused groups differently), reached through a pickle
                 d["graph_names_only_here"] = sorted(set(oA["graph_names"]) - set(r[key]["graph_names"]))
@@ -438,15 +565,23 @@ def cross_process(ctx, rec, r, seed, stats):
                 fail(ctx, "pickle:to-fresh-process:" + ",".join(sorted(d)), rec, f"the collection unpickled in a fresh process (PYTHONHASHSEED={seed}) differs from the original",
                      which=key, hashseed=seed, differences=jsonable(d))
                 return
-    # (iii) the child's pickle loaded here
+    # (iii) the child's pickle loaded here (not for other-configuration items: the receiver does not rebuild them)
+    if cfg:
+        stats["other-config-ok" if not cfg_failed else "other-config-differs"] += 1
+        return
     try:
-        u = pickle.loads(base64.b64decode(r["child_pickle"]))
-        oU = jsonable(observe(u))
+        with dask.config.set(cfg):
+            u = pickle.loads(base64.b64decode(r["child_pickle"]))
+            oU = jsonable(observe(u))
     except Exception as e:
         fail(ctx, "pickle:from-fresh-process-raises", rec, f"unpickling the fresh process's collection raises {type(e).__name__}: {str(e)[:120]}")
         return
     ctx.traces += 1
-    d = diff(jsonable(r["built"]), oU, FIELDS_G)
+    d = diff(jsonable(r["built"]), oU, fields)
+    if d and cfg:
+        fail(ctx, "pickle:other-config:from-fresh-process:" + ",".join(sorted(d)), rec,
+             f"built and pickled under the default configuration, unpickled here under {cfg}: the collection changes", hashseed=seed, differences=jsonable(d))
+        return
     if d and set(d) == {"graph_keys"} and classify_graph_keys(r["built"], oU):
         d["graph_names_only_there"] = sorted(set(r["built"]["graph_names"]) - set(oU["graph_names"]))
         d["graph_names_only_here"] = sorted(set(oU["graph_names"]) - set(r["built"]["graph_names"]))
